@@ -2,7 +2,7 @@
 C20)."""
 import ast
 
-from ..model import AnalysisError, U, walk_no_nested, parent, ancestors
+from ..model import AnalysisError, U, walk_no_nested, parent, ancestors, npos
 
 DATE_FIELDS = ("_day_of_year", "_week_of_year", "_day_of_month",
                "_month_of_year", "_day_of_week")
@@ -327,6 +327,51 @@ def r11_leap_polarity(ctx):
         if f.cls is cal:
             continue
         leapvars = _leap_vars(ctx, f)
+        # a flag that holds "the year is leap" holds nothing else: every
+        # other binding of the same name is leap-derived too, or is the
+        # constant for "no year given" under a None test of a year
+        local_flags = _leap_vars_local(ctx, f)
+        for n in walk_no_nested(f.node):
+            if not (isinstance(n, ast.Assign) and len(n.targets) == 1 and
+                    isinstance(n.targets[0], ast.Name) and
+                    n.targets[0].id in local_flags):
+                continue
+            v = n.value
+            leapish = any(
+                (isinstance(x, ast.Call) and any(
+                    q.endswith(".get_is_leap_year")
+                    for q in callee_quals(ctx, f, x))) or
+                (isinstance(x, ast.Name) and x.id in leapvars and
+                 x.id != n.targets[0].id) for x in ast.walk(v))
+            if leapish:
+                continue
+            from ..flow import path_conds
+            conds = path_conds(n)
+            none_year = any(
+                isinstance(t, ast.Compare) and len(t.ops) == 1 and
+                isinstance(t.ops[0], (ast.Is, ast.IsNot)) and
+                "year" in U(t.left) for t, _ in conds)
+            first = not any(
+                isinstance(m, ast.Assign) and isinstance(
+                    m.targets[0], ast.Name) and
+                m.targets[0].id == n.targets[0].id and m is not n and
+                npos(m) < npos(n)
+                for m in walk_no_nested(f.node))
+            rep.anchor(rule, "leap-selected tables")
+            rep.check(
+                none_year or (first and isinstance(v, ast.Constant) and
+                              not conds), rule,
+                ctx.fkey(f, n, "flag-override"), f.loc(n),
+                "the default of the leap flag %s" % n.targets[0].id,
+                "%s re-binds the leap flag `%s` to %s%s: from there on the "
+                "flag no longer says whether the year is leap, and whatever "
+                "it selects (month table, cache entry) is the common-year "
+                "one for a leap year" % (
+                    f.qual, n.targets[0].id, U(v)[:40],
+                    (" when " + " and ".join(
+                        ("" if pol else "not ") + U(t)[:50]
+                        for t, pol in conds)) if conds else ""),
+                _props_for(f) + ("C12", "C15"))
         for n in walk_no_nested(f.node):
             test = None
             if isinstance(n, ast.If):
